@@ -605,3 +605,54 @@ def gen_long(rng, hid):
         sc.advance(rng.choice([96000, 100000, 110000]))
         sc.deliver(s.recs("SA"), 2)        # the refresh query is answered once
     return sc.finish(rng.choice([130000, 4700000]))
+
+
+# --------------------------------------------------------------------------- shared module attributes
+
+HARNESS_ARGS = ["sim"]
+PER_SHARD = 8
+
+TRUSTED_COMMON = [
+    "Coq 8.16.1 kernel (coqc)",
+    "axioms: none expected (Print Assumptions output recorded in this file)",
+    "extraction (ExtrOcamlBasic only) + ocaml/browser/driver.ml (parsing of histories / observation lines, printing); "
+    "the monitors are the extracted chk_C03 / viol_C04 / viol_C05",
+    "tools/extract_params.py anchors (tools/params/browser.py -> Gen/ParamsBrowser.v, pinned in Proofs/ParamsBrowserPinned.v)",
+    "hooks: the K6 simulated world (virtual clock, injected datagrams, per-iteration gate, captured egress) of the "
+    "verif-hooks feature; harness/src/sim.rs; tools/dnsgen.py builds and parses the packets",
+    "Model/Wire.v (decoder model, theorems C01/C02) is what turns delivered datagrams into records on the model side",
+    "modelled, not verified: hash-map iteration order (canonical order per channel and instance; histories keep one "
+    "PTR name per instance except in the known-finding class), time standing still inside one loop iteration, the "
+    "static interface table, non-ASCII case mapping (identity), channel capacity (flume bounded(10): histories keep "
+    "fewer than 10 events per channel and iteration), everything the hooks replace (mio, sockets, OS clock)",
+]
+
+
+def known_from_tags(mon_result, table):
+    """mon_result 'FAIL[tag,tag] ...' -> finding id if EVERY tag is a listed class, else None."""
+    if not mon_result.startswith("FAIL["):
+        return None
+    tags = mon_result[5:mon_result.index("]")].split(",")
+    ids = [table.get(t) for t in tags]
+    if not ids or any(i is None for i in ids):
+        return None
+    return ids[0]
+
+
+def nontrivial_obs(line, result):
+    """A history counts when the daemon produced at least one browse event or follow-up question."""
+    return result.startswith("OBS ") and "#" in result
+
+
+def shrink_hist(line, still_bad):
+    import vlib
+    return vlib.shrink_history(line, still_bad)
+
+
+def mk_cases(rng, spec):
+    """spec: list of (tag, count, generator(rng, id))."""
+    out = []
+    for tag, n, g in spec:
+        for i in range(n):
+            out.append(Case(g(rng, "%s%d" % (tag, i)), tag))
+    return out
